@@ -34,6 +34,8 @@ type simSide struct {
 	q          map[uint32]int
 	budget     int
 	stall      bool // the failure of the outgoing direction is transient (recConn.cutErr)
+	rdFailAt   int  // offset of the incoming stream at which the trunk Read fails once with a time-out; -1: never
+	rdFailed   bool
 	pend       []func()
 	unread     int // frames waiting in this end's socket buffer while its reader is still blocked
 	events     []evObs
@@ -59,7 +61,7 @@ type sim struct {
 func newSim(s *scriptScn) *sim {
 	m := &sim{qlen: s.QLen, orderly: true, unix: s.Transport == "unix"}
 	for i := 0; i < 2; i++ {
-		sd := &simSide{raw: s.Raw[i], blocked: s.Blocked[i], opened: s.Open[i], budget: s.Cut[i], stall: s.CutErr[i] != "",
+		sd := &simSide{raw: s.Raw[i], blocked: s.Blocked[i], opened: s.Open[i], budget: s.Cut[i], stall: s.CutErr[i] != "", rdFailAt: s.RdFail[i] - 1,
 			mapped: map[uint32]bool{}, cclosed: map[uint32]bool{}, q: map[uint32]int{}, recv: map[uint32][]string{}}
 		for _, id := range s.Open[i] {
 			sd.mapped[id] = true
@@ -69,6 +71,11 @@ func newSim(s *scriptScn) *sim {
 	for i := 0; i < 2; i++ {
 		if s.Cut[i] == 0 && s.CutErr[i] == "" {
 			m.cutHappens(i)
+		}
+	}
+	for i := 0; i < 2; i++ {
+		if m.side[i].rdFailAt == 0 {
+			m.readFails(i) // the very first Read of the reader
 		}
 	}
 	return m
@@ -127,6 +134,25 @@ func (m *sim) onFrame(i int, id uint32) {
 		m.overflow, m.orderly = true, false
 		sd.readerDone = true
 		m.selfClose(i)
+		m.trunkShut(i)
+	})
+}
+
+// side i's reader gets an error that is not an end-of-file from its trunk Read (a time-out): a read failure of any
+// kind at any offset ends the reader — it latches the error and closes the Mux, whatever the trunk does afterwards
+func (m *sim) readFails(i int) {
+	sd := m.side[i]
+	if sd.rdFailed || sd.raw {
+		return
+	}
+	sd.rdFailed = true
+	m.orderly = false
+	m.reader(i, func() {
+		m.ev(i, "EvTrunkFail", "ONone")
+		if !sd.readerDone {
+			sd.readerDone = true
+			m.selfClose(i)
+		}
 		m.trunkShut(i)
 	})
 }
@@ -350,6 +376,12 @@ func (m *sim) doRaw(i int, b []byte, r actRes) {
 		b = b[:r.N]
 	}
 	sd.rawbuf = append(sd.rawbuf, b...)
+	defer func() {
+		// the reader has consumed what arrived up to the offset of the read failure and asks for more
+		if peer := m.side[1-i]; peer.rdFailAt >= 0 && !peer.rdFailed && len(sd.rawbuf) >= peer.rdFailAt {
+			m.readFails(1 - i)
+		}
+	}()
 	for {
 		rest := sd.rawbuf[sd.rawSeen:]
 		if len(rest) < 8 {
@@ -360,11 +392,23 @@ func (m *sim) doRaw(i int, b []byte, r actRes) {
 		if len(rest)-8 < n {
 			return
 		}
+		peer := m.side[1-i]
+		end := sd.rawSeen + 8 + n
+		if peer.rdFailAt >= 0 && !peer.rdFailed && end > peer.rdFailAt {
+			m.readFails(1 - i) // the failure falls inside this frame: it is never completed
+			return
+		}
 		hx := hex.EncodeToString(rest[8 : 8+n])
 		sd.sent = append(sd.sent, sentW{id, hx})
 		sd.full = append(sd.full, sentW{id, hx})
 		sd.rawSeen += 8 + n
-		m.onFrame(1-i, id)
+		if !peer.rdFailed {
+			m.onFrame(1-i, id)
+		}
+		if peer.rdFailAt >= 0 && !peer.rdFailed && end == peer.rdFailAt {
+			m.readFails(1 - i) // the reader's next header Read
+			return
+		}
 	}
 }
 
